@@ -85,6 +85,10 @@ func run(family string, line []byte, rec *recorder, opt string) {
 			sc.Demux = true
 		}
 		runMux(&sc, rec)
+	case "crc":
+		runCRC(line, rec)
+	case "dvb":
+		runDVB(line, rec)
 	case "demux", "pair", "merge", "skip", "rewind", "rfault", "reader", "robust":
 		var sc streamScenario
 		if err := json.Unmarshal(line, &sc); err != nil {
